@@ -55,10 +55,26 @@ def main():
     sab = copy.deepcopy(recs)
     target = next(r for r in sab if r['hist'][-1]['rpc'] == 'SuggestTrials' and r['resp']['err'] == 'None' and r['resp']['val']['op']['trials'])
     target['st']['trial']['s1'][0]['client'] = 'w2' if target['st']['trial']['s1'][0]['client'] == 'w1' else 'w1'
-    rr = replay.replay(sab, speca.conf_of(consts), backend='ram', scratch=d, procs=2)
+    rr = replay.replay(sab, speca.conf_of(consts), backend='ram', scratch=d, procs=2, judge=False)
     good = len(rr.divergences) == 1 and rr.divergences[0]['sig']['what'] == 'state'
-    print('selftest sabotaged expectation: %d divergence(s) %s' % (len(rr.divergences), 'as expected' if good else 'UNEXPECTED'))
+    print('selftest sabotaged expectation (exact comparison): %d divergence(s) %s' % (len(rr.divergences), 'as expected' if good else 'UNEXPECTED'))
     ok &= good
+    # the existential judge (VizierJudge.tla): the same step as the implementation really took it is explained by some allowed
+    # choice; the step with a corrupted OBSERVED state is not
+    if rr.divergences:
+      dv = rr.divergences[0]
+      w = world.World(speca.conf_of(consts), backend='ram')
+      for c in dv['hist'][:-1]:
+        w.run(c)
+      pre = w.project()
+      honest = dict(dv)
+      corrupted = copy.deepcopy(dv)
+      tr0 = corrupted['got_state']['trial']['s1'][0]
+      tr0['client'] = 'w2' if tr0['client'] == 'w1' else 'w1'
+      v = replay.judge_divergences([honest, corrupted], [pre, pre], speca.conf_of(consts), d, 'selftest')
+      good = v[0] == 'ok' and v[1] != 'ok'
+      print('selftest existential judge: honest step %s, corrupted observation %s %s' % (v[0], v[1], 'as expected' if good else 'UNEXPECTED'))
+      ok &= good
   print('selftest: %s' % ('ok' if ok else 'FAILED'))
   return 0 if ok else 2
 
